@@ -60,9 +60,11 @@ fn value(m: &Model, sheet_name: &str, row: i32, col: i32) -> String {
         Some(c) => format!("{c:?}"), None => "none".into(),
     }
 }
-const USERS: [(usize, i32, &str); 10] = [
+const USERS: [(usize, i32, &str); 12] = [
     (0, 1, "=G_cell+1"), (0, 2, "=SUM(G_range)"), (0, 3, "=L_cell*2"), (0, 4, "=inc(2)"), (0, 5, "=tot(3)"), (0, 6, "=half(5)"),
     (0, 7, "=SUM(G_range)+inc(G_cell)"), (1, 1, "=L_data+G_cell"), (1, 2, "=g_cell&\"x\""), (0, 8, "=Renamed9+1"),
+    // a decimal literal and an argument separator next to a name: what a re-parse in the active locale damages
+    (0, 9, "=G_cell+0.5"), (1, 3, "=SUM(G_range,0.5)"),
 ];
 fn values_view(m: &Model, sheets: &[String; 2]) -> Vec<String> {
     USERS.iter().map(|(s, r, f)| format!("{}!E{} {} -> {}", sheets[*s], r, f, value(m, &sheets[*s], *r, 5))).collect()
@@ -201,7 +203,7 @@ impl Run {
         let names_ok = n1 == n_exp;
         let mut values_ok = val_only(&v1) == val_only(&v_exp);
         let twin_names_ok = nt == n_exp;
-        let twin_values_ok = val_only(&vt) == val_only(&v_exp);
+        let mut twin_values_ok = val_only(&vt) == val_only(&v_exp);
         // the capture case: =Renamed9+1 was #NAME? and is bound after the rename — expected to change; everything else must not
         let mut capture = false;
         if op == OpK::RenameToUsedIdentifier {
@@ -209,6 +211,7 @@ impl Run {
             let (a, b2) = (val_only(&v1), val_only(&v_exp));
             capture = a[idxc] != b2[idxc];
             values_ok = a.iter().zip(b2.iter()).enumerate().all(|(i, (x, y))| i == idxc || x == y);
+            twin_values_ok = val_only(&vt).iter().zip(b2.iter()).enumerate().all(|(i, (x, y))| i == idxc || x == y);
         }
         if capture {
             self.or.fail("rename_captures_free_identifier", replay.clone(), format!("=Renamed9+1 was #NAME? before G_cell was renamed to Renamed9 and is {} afterwards", val_only(&v1)[USERS.iter().position(|u| u.2 == "=Renamed9+1").unwrap()]));
